@@ -80,8 +80,49 @@ def trial_count(sub, desc):
     return 'ok'
 
 
+def smgen_designs():
+    """SMGen (experimental: its own randomised search, no formula) is outside the corpus sweep; the lengths of what it
+    returns are checked on this fixed list only, which includes the two shapes for which it is known to return short
+    sequences (known findings) and the transition/MinimumTrials shapes where its length arithmetic is exercised."""
+    from ..corpus import D, A2, A3, B2, C3, TRA, cross, repeat, within
+    G = within('G', ['A', 'C'], preds=(('table', [['a0', 'c0'], ['a1', 'c1']]), 'else'))
+    return [D([A3, B2], cross('AB', 'AB')),
+            D([A3, B2, TRA], cross('ABR', 'AR')),
+            D([A3, B2, TRA], cross('ABR', 'AR', [['MinimumTrials', 8]])),
+            D([A3, B2, TRA], cross('ABR', 'AR', [['MinimumTrials', 12]])),
+            D([A3, B2, TRA], cross('ABR', 'AR', [['MinimumTrials', 13]])),
+            D([A3, B2], cross('AB', 'A', [['MinimumTrials', 7]])),
+            D([A3, B2], repeat(cross('AB', 'A'), [['MinimumTrials', 8]])),
+            D([A2, C3, G], cross('ACG', 'G', [['MinimumTrials', 3]]))]
+
+
+def smgen_lengths(sub, desc):
+    from .c08 import child_lengths
+    from ..common import stable_hash
+    key = stable_hash(desc)
+    sub.case('smgen:' + key)
+    try:
+        T = analyse(desc).T
+    except Exception:
+        return 'outside'
+    lens = child_lengths(desc, 'SMGen', 60)
+    if lens is None:
+        return 'no-answer'       # refused (documented) or did not finish
+    for d in lens:
+        bad = {k: n for k, n in d.items() if n != T}
+        if bad:
+            sub.violation(f'length:SMGen:{key}', f'{describe(desc)}: SMGen returned columns of length {bad}, documented '
+                          f'trial count {T}', {'desc': desc, 'expected': T, 'query': 'smgen'})
+            return 'violation'
+    return 'ok'
+
+
 def replay(data):
     import sweetpea as sp
+    if data.get('query') == 'smgen':
+        from .c08 import child_lengths
+        lens = child_lengths(data['desc'], 'SMGen', 60)
+        return lens is not None and any(n != data['expected'] for d in lens for n in d.values())
     if data.get('query') == 'crosshair':
         from ..xhair import replay_harness
         return replay_harness(data)
@@ -174,6 +215,8 @@ def run(ctx):
                        'lengths are decided for all models by C01/C02 and sampled here per strategy.')
     ds = designs(ctx.tier, ctx.seed) + c25.nest_designs(ctx.tier, ctx.seed) + c24.extra_designs(ctx.tier, ctx.seed)
     res = pmap(ctx, trial_count, ds)
+    sm = pmap(ctx, smgen_lengths, smgen_designs())
+    ctx.extra['smgen_outcomes'] = {str(k): sm.count(k) for k in set(sm)}
     ctx.extra['design_outcomes'] = {str(k): res.count(k) for k in set(res)}
     from ..xhair import run_cases
     run_cases(ctx, XH_HEADER, xh_cases(ctx.tier), timeout=600 if ctx.tier == 'thorough' else 120, path_timeout=40,
